@@ -12,7 +12,8 @@ ASSUMPTIONS = ASSUME_SESSION + ["GLib is NOT installed: GLibEventLoop runs on ha
                                 "exception, no processing call with other pending signals; equivalence is claimed on calm runs only, up to the first quit request"]
 RULE = ("every loop / app / tame case is run on the real MainLoop and on the real GLibEventLoop over the stand-in; on runs the model classifies as calm the callback and handler sequences, the "
         "delivered lines and the console output must be identical up to the first quit request; divergences on non-calm runs are counted as known findings per violated clause; "
-        "non-trivial = a calm run with >= 6 events")
+        "non-trivial = a calm run with >= 6 events"
+        ' Later rounds: handlers registered while the loop runs; typed lines are handed in under the same reader schedule on both loops.')
 
 
 def gen_flat(rnd, sid):
